@@ -241,7 +241,8 @@ def run(ctx):
     import paramiko.channel as chmod
     from pv import lib_chanlock
     sites, notifies = lib_chanlock.channel_tables(chmod.Channel)
-    ctx.write_generated("ChanLock", lib_chanlock.lean_tables(sites, notifies))
+    ctx.write_generated("ChanLock", lib_chanlock.lean_tables(sites, notifies,
+                                                             lib_chanlock.window_accesses(chmod.Channel)))
     ctx.extra["decision_sites"] = ["%s:%s:%s" % (x["caller"], x["target"], "locked" if x["eff"] else "UNLOCKED")
                                    for x in sites if x["caller"] != "__init__"]
     ctx.build(extra_modules=["PV.Model.ChanDriver"])
